@@ -61,6 +61,7 @@ type Scenario struct {
 	PCancel  float64         `json:"pcancel"`  // random mode: probability of a cancellation move
 	CancelOK []string        `json:"cancelok"` // which cancellations random mode may use: ctx, rep, cli
 	Oracle   bool            `json:"oracle"`   // compute the fresh-Config oracle at every idle monitor
+	ReuseBuf bool            `json:"reusebuf"` // blocking reports hand over a pointer to one buffer per source, rewritten in place each time
 	Starve   []string        `json:"starve"`   // random mode: goroutines that are only moved when nothing else can move
 	PtrY     bool            `json:"ptry"`     // leaf y lives behind a user pointer (HCfg.L.Z) and sources hand it over as *HLim
 }
@@ -155,6 +156,16 @@ type fsrc struct {
 	init ValSpec
 	wa   dials.WatchArgs
 	typ  *dials.Type
+	buf  reflect.Value // ReuseBuf: the one value this source ever reports (by pointer), updated in place
+}
+
+// reused returns the source's report buffer holding v (the reporter is blocked until the monitor is done with it)
+func (f *fsrc) reused(v reflect.Value) reflect.Value {
+	if !f.buf.IsValid() || f.buf.Elem().Type() != v.Type() {
+		f.buf = reflect.New(v.Type())
+	}
+	f.buf.Elem().Set(v)
+	return f.buf
 }
 
 func (f *fsrc) Value(_ context.Context, t *dials.Type) (reflect.Value, error) {
@@ -455,7 +466,11 @@ func (k *kernel) runProc(p string, ops []Op) {
 					k.s.Note(p, "ret", "op", "val", "n", i+1, "src", ci, "res", errClass(err))
 				case "block":
 					k.s.Note(p, "call", "op", "block", "n", i+1, "src", ci, "x", op.V.X, "y", op.V.Y, "u", op.V.U)
-					err := src.wa.BlockingReportNewValue(ctx, mkVal(src.typ.Type(), *op.V))
+					rv := mkVal(src.typ.Type(), *op.V)
+					if k.sc.ReuseBuf {
+						rv = src.reused(rv)
+					}
+					err := src.wa.BlockingReportNewValue(ctx, rv)
 					c, tok := k.d.ViewVersion()
 					m := map[string]any{}
 					k.s.mu.Lock()
